@@ -17,6 +17,10 @@ from translate import c39 as tr
 #   part    ["part", side, n]: only the next n (1 or 2) bytes of the oldest command are delivered now -- never its last
 #           byte; the command takes effect when a later dlv completes it.  Invisible to the model (C38: segmentation of
 #           the wire is invisible), so these operations produce no observation of their own
+#   mode    "queued" (default): commands wait in the in-flight queue until a dlv/part operation; "sync": ZERO-LATENCY
+#           transport -- write() delivers the command to the peer before it returns, and the peer's answer comes back
+#           re-entrantly the same way (an in-memory pipe); the ops are then requests only, and each request is
+#           reported as the request followed by the (up to 4) deliveries it set off, in order
 #   hyp     the case respects "policies accept the options they themselves request"
 
 OPT_BYTES = [b"\x01", b"\x03", b"\x1f", b"\x22"]
@@ -26,9 +30,44 @@ CMD = {251: "WILL", 252: "WONT", 253: "DO", 254: "DONT"}
 
 def _run(case):
     from twisted.conch import telnet
+    from twisted.internet import defer
+
+    real_defer = telnet.defer
+    try:
+        return _run_inner(case, telnet, defer)
+    finally:
+        telnet.defer = real_defer
+
+
+def _run_inner(case, telnet, defer):
 
     log = []
     chan = {"A": [], "B": []}          # commands in flight FROM A / FROM B: (opt index, name, bytes)
+    sync = case.get("mode") == "sync"
+    delivered = []                      # sync mode: the commands delivered during the current operation, in order
+    ids = {}                            # request Deferred -> id
+
+    class LoggingDeferred(defer.Deferred):
+        """the request Deferreds: the moment they fire is part of the observation (in sync mode that is before the
+        request method has even returned them)"""
+
+        def callback(self, result):
+            log.append(("fire", self, "ok" if result is True else f"?{result!r}"))
+            defer.Deferred.callback(self, result)
+
+        def errback(self, fail=None):
+            log.append(("fire", self, "ref" if getattr(fail, "check", lambda *a: False)(telnet.OptionRefused) or
+                        isinstance(fail, telnet.OptionRefused) else "?" + type(getattr(fail, "value", fail)).__name__))
+            defer.Deferred.errback(self, fail)
+
+    class DeferShim:
+        Deferred = LoggingDeferred
+
+        def __getattr__(self, name):
+            return getattr(defer, name)
+
+    def render(entries):
+        return ",".join(e if isinstance(e, str) else f"F{ids.get(e[1], '?')}={e[2]}" for e in entries)
 
     class Tr:
         disconnecting = False
@@ -42,7 +81,11 @@ def _run(case):
             for i in range(0, len(data), 3):
                 name, o = CMD[data[i + 1]], OPT_BYTES.index(data[i + 2:i + 3])
                 log.append(">" + name)
-                chan[self.name].append((o, name, data[i:i + 3]))
+                if sync:
+                    delivered.append((o, name))
+                    feed("B" if self.name == "A" else "A", data[i:i + 3])
+                else:
+                    chan[self.name].append((o, name, data[i:i + 3]))
 
     class T(telnet.Telnet):
         def __init__(self, pol):
@@ -84,9 +127,11 @@ def _run(case):
         except Exception as e:                          # anything else a handler raises is an observation too
             log.append("!" + type(e).__name__)
 
+    telnet.defer = DeferShim()          # restored by _run
     for op in case["ops"]:
         del log[:]
         del marks[:]
+        del delivered[:]
         if op[0] == "req":
             _, sd, o, kind = op
             res = []
@@ -94,18 +139,28 @@ def _run(case):
                 d = getattr(ends[sd], kind)(OPT_BYTES[o])
             except Exception as e:
                 out.append("!" + type(e).__name__)
+                if sync:
+                    out += ["-"] * 4
                 continue
-            if d.called:
+            if isinstance(d, LoggingDeferred):
+                ids[d] = nid
+                nid += 1
+                d.addErrback(lambda f: None)            # the refusal was logged when it fired; keep the logs quiet
+                out.append(f"I{ids[d]}")
+            else:
                 d.addErrback(lambda f: res.append(f.type.__name__))
                 out.append({"AlreadyNegotiating": "AN", "AlreadyEnabled": "AE", "AlreadyDisabled": "AD"}.get(
                     res[0] if res else "", "?" + (res[0] if res else "fired")))
-            else:
-                i = nid
-                nid += 1
-                d.addCallbacks(lambda v, i=i: log.append(f"F{i}=ok" if v is True else f"F{i}=?{v!r}"),
-                               lambda f, i=i: log.append(f"F{i}=ref" if f.check(telnet.OptionRefused)
-                                                         else f"F{i}=?{f.type.__name__}"))
-                out.append(f"I{i}")
+            if sync:
+                # the deliveries this request set off, in order; each one's effects start where it was dispatched
+                if len(marks) >= len(delivered):
+                    bounds = marks[:len(delivered)] + [len(log)]
+                else:
+                    bounds = marks + [len(log)] * (len(delivered) - len(marks) + 1)
+                segs = [f"{name}{oo}:" + render(log[bounds[k]:bounds[k + 1]]) for k, (oo, name) in enumerate(delivered)]
+                if len(segs) > 4:
+                    segs = segs[:3] + ["+".join(segs[3:])]
+                out += segs + ["-"] * (4 - len(segs))
         elif op[0] == "part":
             frm = op[1]
             to = "B" if frm == "A" else "A"
@@ -115,7 +170,7 @@ def _run(case):
                     feed(to, chan[frm][0][2][off[frm]:off[frm] + n])
                     off[frm] += n
             if log:                                     # a partial command must not have any visible effect
-                out.append("?early:" + ",".join(log))
+                out.append("?early:" + render(log))
         else:
             frm = op[1]
             to = "B" if frm == "A" else "A"
@@ -141,7 +196,7 @@ def _run(case):
             for k in range(count):
                 if k < len(heads):
                     o, name = heads[k]
-                    out.append(f"{name}{o}:" + ",".join(log[bounds[k]:bounds[k + 1]]))
+                    out.append(f"{name}{o}:" + render(log[bounds[k]:bounds[k + 1]]))
                 else:
                     out.append("-")
     nopt = len(case["pa"])
@@ -174,12 +229,17 @@ def oracle(case, obs):
         flat_ops.append(op)
         if op[0] == "dlv2":
             flat_ops.append(op)
+        if op[0] == "req" and case.get("mode") == "sync":
+            other = "B" if op[1] == "A" else "A"
+            flat_ops += [["dlv", op[1]], ["dlv", other], ["dlv", op[1]], ["dlv", other]]
     if any(st.startswith("?early") for st in steps):
         return Failure(case, "a partially delivered command already had a visible effect: "
                        + [st for st in steps if st.startswith("?early")][0], "partial-command-effect")
     if len(flat_ops) != len(steps):
         return Failure(case, "malformed observation", "log")
     for k, (op, st) in enumerate(zip(flat_ops, steps)):
+        if "+" in st:
+            return Failure(case, f"op {k} {op}: one request set off more than four deliveries ({st})", "message-loop")
         if "!A" in st.split(":")[-1].split(",") or st == "!A":
             return Failure(case, f"op {k} {op}: an assertion inside a negotiation handler failed ({st})", "assertion-reached")
         if "!" in st:
@@ -295,8 +355,35 @@ def _with_segmentation(rng, case, p):
     return {**case, "ops": _segment(rng, core) + case["ops"][len(core):]}
 
 
+def _sync_cases(rng, tier):
+    """zero-latency transport: every sequence of <= 2 (thorough 3) allowed requests on one option for several policy
+    pairs, then random longer request sequences on 1-2 options"""
+    quick = tier == "quick"
+    pols = [[False, False], [False, True], [True, False], [True, True]]
+    combos = [(a, b) for a in pols for b in pols]
+    if quick:
+        combos = [([True, True], [True, True]), ([True, True], [False, False]), ([True, False], [False, True]),
+                  ([False, False], [True, True])]
+    reqs = [a for a in _actions(1) if a[0] == "req"]
+    cases = []
+    for a, b in combos:
+        base = {"pa": [a], "pb": [b], "hyp": True, "mode": "sync"}
+        for n in range(1, (2 if quick else 3) + 1):
+            for seq in itertools.product(reqs, repeat=n):
+                if all(_allowed(base, op) for op in seq):
+                    cases.append({**base, "ops": [list(op) for op in seq]})
+    for _ in range(150 if quick else 3000):
+        nopt = rng.choice([1, 2])
+        base = {"pa": [rng.choice(pols) for _ in range(nopt)], "pb": [rng.choice(pols) for _ in range(nopt)],
+                "hyp": True, "mode": "sync"}
+        ops = [a for a in (rng.choice([x for x in _actions(nopt) if x[0] == "req"]) for _ in range(rng.randrange(2, 14)))
+               if _allowed(base, a)]
+        cases.append({**base, "ops": ops})
+    return cases
+
+
 def gen(rng, tier):
-    return [_with_segmentation(rng, c, 0.6) for c in _gen(rng, tier)]
+    return [_with_segmentation(rng, c, 0.6) for c in _gen(rng, tier)] + _sync_cases(rng, tier)
 
 
 def _gen(rng, tier):
@@ -349,6 +436,9 @@ def corpus():
                  ["dlv", "B", "bytes"]] + DRAIN},
         {"pa": [T, T], "pb": [T, T], "hyp": True, "drained": 12,
          "ops": [["req", "A", 0, "will"], ["req", "A", 1, "do"], ["dlv2", "A"], ["part", "B", 2], ["dlv2", "B"]] + DRAIN},
+        # zero-latency transport: the answer arrives before the request method returns
+        {"pa": [T], "pb": [T], "hyp": True, "mode": "sync",
+         "ops": [["req", "A", 0, "will"], ["req", "A", 0, "wont"], ["req", "B", 0, "do"], ["req", "B", 0, "dont"]]},
         {"pa": [[False, False]], "pb": [T], "hyp": False,
          "ops": [["req", "A", 0, "do"], ["dlv", "A"], ["dlv", "B"]]},          # assert enableRemote fails
         {"pa": [T, T], "pb": [T, [False, True]], "hyp": True, "drained": 12,
@@ -363,7 +453,11 @@ def to_coq(case):
 
     def op(o):
         if o[0] == "req":
-            return [f"MReq {o[1]} {o[2]}%nat {msg[o[3]]}"]
+            r = [f"MReq {o[1]} {o[2]}%nat {msg[o[3]]}"]
+            if case.get("mode") == "sync":      # zero latency = the request, then the chain of deliveries it sets off
+                other = "B" if o[1] == "A" else "A"
+                r += [f"MDlv {o[1]}", f"MDlv {other}", f"MDlv {o[1]}", f"MDlv {other}"]
+            return r
         if o[0] == "part":
             return []                         # segmentation of the wire is invisible to the model (C38)
         return [f"MDlv {o[1]}"] * (2 if o[0] == "dlv2" else 1)
@@ -382,7 +476,7 @@ def shrink(case):
 
 
 def histogram(case, obs):
-    k = f"{len(case['pa'])}opt"
+    k = f"{len(case['pa'])}opt" + (" sync" if case.get("mode") == "sync" else "")
     if not case.get("hyp", True):
         return k + " outside-hypothesis"
     body = obs.split(" |")[0]
@@ -404,7 +498,9 @@ SPEC = Spec(
          "depth; two options sharing the channels to depth 6 (thorough 8); random runs of 4-40 operations on 1-3 options "
          "with random policies; runs outside the hypothesis for the correspondence only; 60% of all runs are decorated with "
          "wire segmentation (a command cut after IAC or after the verb with the rest arriving up to 3 operations later, "
-         "byte-wise delivery, two commands coalesced in one delivery); non-trivial = at least one command was sent",
+         "byte-wise delivery, two commands coalesced in one delivery); plus a ZERO-LATENCY transport (write() delivers to the peer "
+         "re-entrantly, answers come back before the request method returns): every sequence of <= 2 (thorough 3) requests for "
+         "4 (16) policy pairs and random longer ones; non-trivial = at least one command was sent",
     trusted=["translate/c39.py (fail-closed ast matcher for the dispatchers, maps, handlers and request methods)",
              "hand-written operational meaning of the generated tables in coq/C39/Model.v (tied by this correspondence run)",
              "the harness's in-flight queue: FIFO per direction; a command takes effect in the model when its last byte is "
